@@ -20,7 +20,7 @@ RULE = ("(1) exhaustive concatenations of syntax-significant tokens up to 4 (qui
         "raised its documented error or the tree was rendered below its structural minimum; distinct by input.")
 ASSUMPTIONS = ["options stay inside their documented domains (Bar.size > 0, ProgressBar.total >= 0, counts >= 0)",
                "a per-case watchdog (10 s) firing is inconclusive, not a violation"]
-REQUIRED = ["mon.color_parse", "mon.style_parse", "mon.get_style", "mon.markup", "mon.ansi_decode", "mon.text_ctor",
+REQUIRED = ["mon.highlighted_render", "mon.highlight_style_defined", "mon.color_parse", "mon.style_parse", "mon.get_style", "mon.markup", "mon.ansi_decode", "mon.text_ctor",
             "mon.print_no_markup", "mon.tree_render", "mon.tree_measure"]
 MIN_NONTRIVIAL = {"quick": 5000, "thorough": 200000}
 
@@ -256,11 +256,101 @@ def wl_trees(ctx, rng, case_no):
                       {"spec": spec, "width": W, "m": m})
 
 
+HIGHLIGHT_TOKENS = [
+    "<Foo", "bar=1>", "<module 'os' from '/usr/lib/os.py'>", "name=value", "x=None", "key='v'",
+    "127.0.0.1", "10.0.0.255", "2001:0db8:85a3:0000:0000:8a2e:0370:7334", "::1", "fe80::1ff:fe23:4567:890a",
+    "01-23-45-FF-FE-67-89-AB", "0123.45FF.FE67.89AB", "1-2-3-4-5-6-7-8", "01:23:45:FF:FE:67:89:AB",
+    "01-23-45-67-89-AB", "0123.4567.89AB", "01:23:45:67:89:AB",
+    "{[()]}", "(", ")", "[1,", "2]", "True", "False", "None", "...", "123", "-1.5e10", "0x1F", "3+4j", "1_000",
+    "/usr/local/bin/python", "/a/b.txt", "./rel/path.py", "C:\\dir\\file.txt", "file.tar.gz",
+    "'single'", '"double"', "b'bytes'", "'it''s'", "123e4567-e89b-12d3-a456-426614174000",
+    "https://example.org/a?b=c&d=e#f", "http://x.y", "file:///tmp/x", "print(", "a.b.c(", "word", "漢字", "=", "<>",
+]
+
+
+def wl_highlighted(ctx, rng, case_no):
+    """Plain strings made of tokens that the default (repr) highlighter recognises - addresses, numbers, paths, tags,
+    URLs, UUIDs ... - printed with highlighting on under every justify / overflow mode at widths that wrap them:
+    every style name the highlighter attaches must resolve wherever the pipeline looks it up."""
+    from rich.highlighter import ReprHighlighter
+    from rich.panel import Panel
+    from rich.table import Table
+    from rich.text import Text
+    toks = [rng.choice(HIGHLIGHT_TOKENS) for _ in range(rng.randint(1, 12))]
+    sep = rng.choice([" ", " ", "  ", ", ", "\n"])
+    s = sep.join(toks)
+    W = rng.choice([1, 2, 5, 10, 20, 40, 80, rng.randint(1, 120)])
+    justify = rng.choice(["default", "left", "center", "right", "full", "full"])
+    overflow = rng.choice(["fold", "crop", "ellipsis", "ignore"])
+    how = rng.choice(["print", "print", "print_nomarkup", "log", "panel", "table", "text_highlight"])
+    wit = {"text": s, "width": W, "justify": justify, "overflow": overflow, "how": how}
+    console = consoles.layout_console(W)
+    # which styles does the highlighter attach here?  (observation for the evidence: groups exercised)
+    for span in ReprHighlighter()(Text(s)).spans:
+        ctx.hist("highlight_style_seen", str(span.style))
+
+    def run():
+        if how == "print":
+            console.print(s, justify=justify, overflow=overflow, highlight=True)
+        elif how == "print_nomarkup":
+            console.print(s, justify=justify, overflow=overflow, highlight=True, markup=False, emoji=False)
+        elif how == "log":
+            console.log(s, justify=justify, highlight=True)
+        elif how == "panel":
+            console.print(Panel(ReprHighlighter()(Text(s, justify=justify, overflow=overflow))))
+        elif how == "table":
+            t = Table("h", highlight=True)
+            t.add_column("c2", justify=justify, overflow=overflow)
+            t.add_row(s, s)
+            console.print(t)
+        else:
+            t = Text(s, justify=justify, overflow=overflow)
+            ReprHighlighter().highlight(t)
+            list(t.wrap(console, max(W, 1), justify=justify, overflow=overflow))
+            console.print(t)
+    signal.signal(signal.SIGALRM, _alarm)
+    signal.setitimer(signal.ITIMER_REAL, 10)
+    try:
+        guarded(ctx, "highlighted_render", (), run, wit)
+    except Timeout:
+        ctx.mark_inconclusive("watchdog fired printing highlighted text")
+    finally:
+        signal.setitimer(signal.ITIMER_REAL, 0)
+    ctx.hist("highlighted_how", "%s/%s" % (how, justify))
+    ctx.case_done(("hl", s, W, justify, overflow, how), len(toks) >= 3, wit)
+
+
+def wl_highlight_styles_defined(ctx):
+    """Exhaustive and cheap: every style name the built-in highlighters can attach (each named group of each
+    pattern, prefixed with the highlighter's base style) resolves on a default console."""
+    import re
+    from rich import highlighter as H
+    from rich.errors import MissingStyle
+    console = _console()
+    n = 0
+    for cls in (H.ReprHighlighter, getattr(H, "JSONHighlighter", None), getattr(H, "ISO8601Highlighter", None)):
+        if cls is None:
+            continue
+        for pattern in cls.highlights:
+            for group in re.compile(pattern).groupindex:
+                n += 1
+                name = cls.base_style + group
+                ctx.count("mon.highlight_style_defined")
+                try:
+                    console.get_style(name)
+                except MissingStyle as e:
+                    ctx.violation("highlighter-style-undefined:%s" % cls.__name__, {"style": name, "error": repr(e)})
+                ctx.case_done(("hs", name), True, {"style": name})
+    ctx.mark_exhaustive("highlighter-group-styles", n)
+
+
 def workloads(tier):
     big = tier == "thorough"
     return [WL("tokens", wl_tokens, kind="custom"),
             WL("unicode", wl_unicode, 600000 if big else 30000),
-            WL("trees", wl_trees, 200000 if big else 6000)]
+            WL("trees", wl_trees, 200000 if big else 6000),
+            WL("highlight_styles_defined", wl_highlight_styles_defined, kind="custom"),
+            WL("highlighted", wl_highlighted, 300000 if big else 12000)]
 
 
 LEVEL_TEXT = ("Feeds the real parsers, decoder, Text constructor and Console.print every concatenation of "
